@@ -10,6 +10,7 @@ C09 - rendering keeps the text.  Claimed for ONE clause only: docstring fields a
   R09.8 a docutils visit method that prunes its subtree renders all of it (no single child picked by index)
   R09.9 a function that replaces a field list uses or keeps every field of it
   R09.10 the parser entries do not rewrite the raw docstring text before parsing
+  R09.11 the doctest colorizer re-emits every named group of a token regex it takes apart
 Does not decide: word-for-word preservation, ordering, literal/doctest blocks, napoleon conversion (equalities over runtime strings).
 """
 from __future__ import annotations
@@ -351,6 +352,41 @@ def run(repo: Repo, chk: Check, thorough: bool = False) -> None:
                f'`{norm(rew[0])[:80]}` rewrites the raw text of the whole docstring, verbatim parts included: the literal block `values[start:data:step]`, the '
                'doctest `>>> rows[lo:obj:hi]` and the inline literal ``kind:class:name`` are shown as `values[startstep]`, `rows[lohi]`, `kindname`', repo.loc(pf.mod, rew[0] if rew else pf.node))
     chk.require('R09.10', 3)
+
+    # ------------------------------------------------------------------ R09.11
+    # the doctest colorizer re-emits the text it matched piece by piece: where a regex with named groups takes a token apart, every named
+    # group has to be emitted again (doctest and code blocks are reproduced character for character)
+    dm = repo.mod('pydoctor.epydoc.doctest')
+    n_rx11 = 0
+    for f in sorted((g for g in repo.funcs.values() if g.mod is dm), key=lambda g: g.qn):
+        for a in f.walk():
+            if not (isinstance(a, ast.Assign) and isinstance(a.value, ast.Call) and call_name(a.value) in ('match', 'fullmatch', 'search') and
+                    isinstance(a.value.func, ast.Attribute) and isinstance(a.value.func.value, ast.Name) and isinstance(a.targets[0], ast.Name)):
+                continue
+            rx = dm.assigns.get(a.value.func.value.id)
+            if not (isinstance(rx, ast.Call) and call_name(rx) == 'compile' and rx.args and isinstance(rx.args[0], ast.Constant) and isinstance(rx.args[0].value, str)):
+                continue
+            import re as _re2
+            try:
+                groups = list(_re2.compile(rx.args[0].value).groupindex)
+            except _re2.error:
+                continue
+            if not groups:
+                continue
+            mv = a.targets[0].id
+            emitted = {c.args[0].value for c in calls_in(f) if call_name(c) == 'group' and isinstance(c.func, ast.Attribute) and
+                       isinstance(c.func.value, ast.Name) and c.func.value.id == mv and c.args and isinstance(c.args[0], ast.Constant)}
+            if not emitted:
+                continue     # the match is only used for its extent (m.end()), not taken apart
+            n_rx11 += 1
+            missing = [g_ for g_ in groups if g_ not in emitted]
+            chk.ob('R09.11', f'{f.qn} :: every named group of {a.value.func.value.id} is emitted again', not missing,
+                   f'groups {groups}' if not missing else
+                   f'group(s) {missing} of `{rx.args[0].value}` are matched but not re-emitted: that part of the source text (e.g. the run of blanks between `def` '
+                   'and the name) is replaced or lost in doctest and code blocks', repo.loc(f.mod, a))
+    if n_rx11 < 1:
+        raise AnalysisError('R09.11: no token regex with named groups is taken apart in pydoctor.epydoc.doctest any more (DEFINE_FUNC_RE confirmed)')
+    chk.require('R09.11', 1)
 
     # ------------------------------------------------------------------ R09.7
     # a reST directive that declares a body (has_content = True) consumes it whatever its arguments are: every normal path through
